@@ -134,6 +134,13 @@ def c05_base():
     pr = c06.find(base, "Proto")
     pr.steps += [("hp", N("Pair", N("Header"), P("int32"))), ("hps", Stream(N("Pair", N("Header"), P("string")))), ("hold", N("Holder")),
                  ("hp2", N("Pair", P("int32"), N("Header"))), ("hold2", N("Holder2"))]
+    # a record the C++ runtime copies with memcpy (two floats), used as scalar, vector item and stream item; a record with a union
+    # field of five cases; fields with names the generated conversion code uses itself
+    from am import Vec, Union
+    base.defs.append(Record("Pt", [("x", P("float32")), ("y", P("float32"))]))
+    base.defs.append(Record("Un5", [("keep", P("int32")), ("u", Union(P("int32"), P("float32"), P("string"), P("bool"), P("int64")))]))
+    base.defs.append(Record("Nm", [("value", P("int32")), ("stream", P("int32")), ("item", P("int32"))]))
+    pr.steps += [("pt", N("Pt")), ("pts", Vec(N("Pt"))), ("ptstream", Stream(N("Pt"))), ("un5", N("Un5")), ("nm", N("Nm")), ("fv", Vec(P("int32"), 3))]
     return base
 
 
@@ -151,6 +158,11 @@ def container_element_edits(base):
         pr = c06.find(p, "Proto")
         pr.steps = [(n, Vec(P(nt)) if n == "vec" else t) for n, t in pr.steps]
         out.append(("container-element-primitive/step-vec:int32->%s" % nt, "partial", p))
+    for nt in ("int64", "float32"):
+        p = clone()
+        pr = c06.find(p, "Proto")
+        pr.steps = [(n, Vec(P(nt), 3) if n == "fv" else t) for n, t in pr.steps]
+        out.append(("container-element-primitive/step-fixed-vector:int32->%s" % nt, "partial", p))
     for nt in ("float64", "int32"):
         p = clone()
         r = c06.find(p, "Sample")
